@@ -50,13 +50,27 @@ def _is_mutable_display(d):
         isinstance(d, ast.Call) and ast.unparse(d.func) in _CTORS)
 
 
+_STATEFUL_CTORS = ("default_rng", "RandomState", "Random", "Generator",
+                   "SeedSequence", "count", "cycle", "iter")
+
+
+def _is_stateful_object(d):
+    """a default that is an object with hidden, advancing state: a random
+    generator, an iterator"""
+    if not isinstance(d, ast.Call):
+        return False
+    name = ast.unparse(d.func).rsplit(".", 1)[-1]
+    return name in _STATEFUL_CTORS
+
+
 def mutable_defaults(func):
-    """[(param, default node)] for defaults that are mutable displays."""
+    """[(param, default node)] for defaults that are mutable displays or
+    stateful objects (created once, when the function is defined)."""
     out = []
     if isinstance(func.node, ast.Lambda):
         return out
     for name, d in func.defaults().items():
-        if _is_mutable_display(d):
+        if _is_mutable_display(d) or _is_stateful_object(d):
             out.append((name, d))
     return out
 
@@ -235,6 +249,17 @@ def default_is_state(prog, func, pname):
 
     def is_p(t):
         return any(r == P for r in _roots(t))
+    d0 = func.defaults().get(pname)
+    if d0 is not None and _is_stateful_object(d0):
+        # every use advances (or may advance) the shared object: handing it
+        # to a call, drawing from it
+        for n in walk_own(func.node):
+            if isinstance(n, ast.Name) and n.id == pname and isinstance(
+                    n.ctx, ast.Load):
+                return ("it is used (line "
+                        f"{getattr(n, 'lineno', '?')}): each call continues "
+                        "where the previous one stopped")
+        return None
     for recv, node, kind in _update_events(func, T, cfg):
         if is_p(recv):
             return (f"it is changed in place (line "
